@@ -403,6 +403,44 @@ def run_long(fmt, layout, rep, steps):
                          detail={"length": L, "observed": repr(got)[:160]})
 
 
+# ----------------------------------------------------------------------------- (g) tables as the image parser hands them out
+def run_image_tables(rep, steps):
+    """AKAI images with two partitions, parsed by the real image parser: the table of EACH partition resolves the chains of
+    its own files, and the streams it hands out deliver that partition's sectors (several images in one process)"""
+    from mcv.gen import akai as A
+    from mcv.engine import tree
+    for perm in itertools.permutations((4, 5, 6)):
+        for perm_b in ((4, 5, 6), (6, 4, 5), (5, 6, 4)):
+            spec = {"parts": [{"vols": [{"name": "VA", "dir": [3], "files": [{"name": "FA", "n": A.words_for_sectors(3), "chain": list(perm), "seq": 1}]}]},
+                              {"vols": [{"name": "VB", "dir": [3], "files": [{"name": "FB", "n": A.words_for_sectors(3), "chain": list(perm_b), "seq": 2}]}]}]}
+            img, layout = A.build_akai(A.model_from_spec(spec))
+            st, image = guarded(lambda: tree.open_image(img), 20.0)
+            case = {"seam": "image_tables", "chains": [list(perm), list(perm_b)], "start": None}
+            if st != "ok":
+                rep.case(case, ok=False, klass="open-failed", nontrivial=True, sig="image_tables:open-" + ("raised:" + exc_sig(image) if st == "exc" else "hang"))
+                continue
+            for pi, chain in enumerate((perm, perm_b)):
+                P = layout[f"p{pi}.size"][0]
+                want = b"".join(img[P + c * A.SECTOR:P + (c + 1) * A.SECTOR] for c in chain)
+
+                def go():
+                    image.set_routines({"make_safe_names": image.make_safe_names_routine, "make_export_names": image.make_export_names_routine})
+                    # (the partition keeps the decoded table it was built with; its `sat` property is not usable in the
+                    # unchanged tree and not used by the tool)
+                    t = image.children[pi]._f_sat
+                    sat = t() if callable(t) else t
+                    return list(sat.get_path(chain[0])), sat.get_segment(chain[0]).read(-1)
+                st2, got = guarded(go, 20.0)
+                steps[0] += 3
+                c2 = dict(case, partition=pi, start=chain[0])
+                if st2 == "ok" and got[0] == list(chain) and got[1] == want:
+                    rep.case(c2, klass="image-table-exact", nontrivial=list(chain) != sorted(chain))
+                else:
+                    rep.case(c2, ok=False, klass="image-table-wrong", nontrivial=True,
+                             sig="image_tables:" + ("raised:" + exc_sig(got) if st2 == "exc" else ("hang" if st2 == "hang" else ("wrong-chain" if got[0] != list(chain) else "stream-delivers-foreign-sectors"))),
+                             detail={"partition": pi, "expected_chain": list(chain), "observed": repr(got[0] if st2 == "ok" else got)[:120]})
+
+
 # ----------------------------------------------------------------------------- (d) streams over chains
 def run_streams(n, rep):
     F = _fat_mod()
@@ -506,7 +544,7 @@ class Check(CheckBase):
             "(c') all tables over 3 (quick) / 4 (thorough) scanned cells x free-cluster count word {1,2,3,4,5,15,16,0xFFF1,0xFFFF} "
             "x the four accepted version-flag pairs (redundant header words must not influence any chain); (d) FileStream.readall over every injective chain of "
             "<=n sectors; (e) the streams the tables hand out (AKAI get_segment, Roland get_file) for every injective chain of <=4 "
-            "(thorough 5) sectors: resolved four times, read to the end twice and in turn through two handles; (f) the chain LENGTH as a dimension: one well-formed chain of 1..8000 / all sectors (AKAI 11385, Roland 65523 clusters) in a table of the real size, laid out ascending / descending / as a stride walk, and the same chain closed into a cycle (judged on termination only). states = (table,start) combinations; transitions = table element reads performed by the "
+            "(thorough 5) sectors: resolved four times, read to the end twice and in turn through two handles; (f) the chain LENGTH as a dimension: one well-formed chain of 1..8000 / all sectors (AKAI 11385, Roland 65523 clusters) in a table of the real size, laid out ascending / descending / as a stride walk, and the same chain closed into a cycle (judged on termination only); (g) 18 two-partition AKAI images through the real image parser, one after the other in one process: each partition's table resolves its own file's chain and its stream delivers that partition's sectors. states = (table,start) combinations; transitions = table element reads performed by the "
             "implementation (counted by list proxies, which are also the non-termination detector). "
             "non-trivial = reference chain has >=2 sectors or is malformed")
     assumptions = ["well-formed as worded in the statement: distinct in-range sectors, ends in an end marker (or last "
@@ -551,6 +589,7 @@ class Check(CheckBase):
         for fmt in ("akai", "roland"):
             for layout in LONG_LAYOUTS:
                 out.append({"seam": "long", "fmt": fmt, "layout": layout})
+        out.append({"seam": "image_tables"})
         out.append({"seam": "streams", "n": 5 if self.quick else 6})
         out.append({"seam": "table_streams", "n": 4 if self.quick else 5})
         return out
@@ -581,6 +620,8 @@ class Check(CheckBase):
             run_roland_hdr(shard["prefix"], rep, steps, shard["ncells"])
         elif shard["seam"] == "roland_embedded":
             run_roland_embedded(shard["cells"], rep, steps)
+        elif shard["seam"] == "image_tables":
+            run_image_tables(rep, steps)
         elif shard["seam"] == "long":
             run_long(shard["fmt"], shard["layout"], rep, steps)
         elif shard["seam"] == "streams":
@@ -607,6 +648,10 @@ class Check(CheckBase):
         elif seam in ("akai_segments", "roland_files"):
             run_table_streams(case["n"], sub)
             sub.violations = [v for v in sub.violations if v["case"].get("chain") == case["chain"] and v["case"]["seam"] == seam]
+            sub.viol_count = len(sub.violations)
+        elif seam == "image_tables":
+            run_image_tables(sub, steps)
+            sub.violations = [v for v in sub.violations if v["case"].get("chains") == case["chains"] and v["case"].get("partition") == case.get("partition")] or sub.violations[:1]
             sub.viol_count = len(sub.violations)
         elif seam in ("long_akai", "long_roland"):
             run_long(seam[5:], case["layout"], sub, steps)
